@@ -31,7 +31,9 @@ FULL = ("slice", None, None, None)
 def check_split(rep, repo, name, with_index):
     fi = repo.need_function(SPLIT, name)
     from ..rules_premise import values_view
-    w0 = Walker(repo, fi, inline=inline_same_module_private(fi))
+    private = inline_same_module_private(fi)
+    # `split` written as a thin wrapper of its sibling: the sibling's body is read in its place
+    w0 = Walker(repo, fi, inline=(lambda g: private(g) or (name == "split" and g.module == SPLIT and g.qual == "split_with_index")))
     from ..rules_premise import check_function_inplace
     check_function_inplace(rep, w0, "SPLIT-inplace", name)
     w = values_view(w0)
@@ -133,13 +135,24 @@ def check_split(rep, repo, name, with_index):
             got = part(out[pos])
             rep.fn("SPLIT-index", fi, f"output {pos} is the {which} slice of the permutation itself", got == which,
                    f"output {pos} is '{show(out[pos])[:120]}'")
+    pct = ("param", "percentage")
+
+    def given(t):
+        """The bound for a percentage that was passed: `0.5 if percentage is None else percentage` is `percentage`
+        (the property speaks about every percentage in [0, 1], not about what stands in for a missing one)."""
+        if not isinstance(t, tuple) or not t:
+            return t
+        t = tuple(given(x) if isinstance(x, tuple) else x for x in t)
+        if t[0] == "sel" and t[1][0] == "cmp" and t[1][1] in ("is", "is not") and {t[1][2], t[1][3]} == {pct, ("const", None)}:
+            return t[3] if t[1][1] == "is" else t[2]
+        return t
+    halts = {given(x) for x in halts}
     halt_ok = len(halts) == 1
     h = next(iter(halts)) if halts else None
-    pct = ("param", "percentage")
     forms = [("call", ("builtin", "int"), (("bin", "*", *sorted([s, pct], key=repr)),), ()) for s in sizes]
     rep.fn("SPLIT-bound", fi, "one bound int(len(X) * percentage) separates the two parts", halt_ok and h in forms,
            f"slice bounds used: {[show(x) for x in halts]}")
-    return rets[-1].value
+    return given(rets[-1].value)
 
 
 def check_merge(rep, repo):
